@@ -200,22 +200,24 @@ Section Iterators.
     end.
 End Iterators.
 
+Definition is_cdata (x : pyval) : bool := match x with VCData _ _ _ => true | _ => false end.
+
+(* convert_vfield_from_object with optvarsize != NULL; `rec` sizes a nested var-sized struct *)
+Definition size_field (rec : list lfield -> pyval -> Z -> res Z) (f : lfield) (x : pyval) (opt : Z) : res Z :=
+  let ft := lf_type f in
+  if is_flex ft then
+    bind (get_new_array_length x) (fun lb =>
+    add_varsize_length (lf_off f) (lsize (item_of ft)) (fst lb) opt)
+  else if agg_var ft && negb (is_cdata x) then
+    bind (rec (agg_fields ft) x (lsize ft)) (fun subsize =>
+    add_varsize_length (lf_off f) 1 subsize opt)
+  else Ok opt.
+
 (* sizing pass: convert_struct_from_object(NULL, ct, init, &optvarsize) *)
 Fixpoint size_struct (fuel : nat) (fs : list lfield) (v : pyval) (opt : Z) : res Z :=
   match fuel with
   | O => Err OutOfFuel
-  | S fuel' =>
-      struct_from_object
-        (fun f x opt =>                                    (* convert_vfield_from_object, optvarsize != NULL *)
-           let ft := lf_type f in
-           if is_flex ft then
-             bind (get_new_array_length x) (fun lb =>
-             add_varsize_length (lf_off f) (lsize (item_of ft)) (fst lb) opt)
-           else if agg_var ft && negb (match x with VCData _ _ _ => true | _ => false end) then
-             bind (size_struct fuel' (agg_fields ft) x (lsize ft)) (fun subsize =>
-             add_varsize_length (lf_off f) 1 subsize opt)
-           else Ok opt)
-        fs v opt
+  | S fuel' => struct_from_object (size_field (size_struct fuel')) fs v opt
   end.
 
 Definition one_byte_item (t : ltype) : bool :=
@@ -233,6 +235,56 @@ Fixpoint fill_items (rec : Z -> pyval -> mem -> res mem) (off isz : Z) (l : list
   | x :: l' => bind (rec off x m) (fill_items rec (off + isz) isz l')
   end.
 
+(* convert_array_from_object 1480; `rec` converts one item *)
+Definition fill_array (rec : Z -> pyval -> mem -> res mem) (item : ltype) (len off : Z)
+           (v : pyval) (m : mem) : res mem :=
+  let isz := lsize item in
+  match v with
+  | VList l =>
+      if (0 <=? len) && (len <? mlen l) then Err IndexError
+      else fill_items rec off isz l m
+  | VBytes b =>
+      if one_byte_item item then
+        if (0 <=? len) && (len <? mlen b) then Err IndexError
+        else
+          let src := if mlen b =? len then b else b ++ [0] in
+          if is_bool_item item && existsb (fun c => 1 <? c) src then Err ValueError
+          else write off src m
+      else Err TypeError
+  | VStr c =>
+      if wide_char_item item then
+        if (0 <=? len) && (len <? mlen c) then Err IndexError
+        else
+          let src := if mlen c =? len then c else c ++ [0] in
+          write off (flat_map (le_bytes isz) src) m
+      else Err TypeError
+  | VCData true data alen =>
+      (* same ctype, so get_array_length is ct_length when that is known *)
+      let n := if 0 <=? len then len else alen in
+      write off (firstn (Z.to_nat (n * isz)) data) m
+  | _ => Err TypeError
+  end.
+
+(* convert_vfield_from_object with optvarsize == NULL, then convert_field_from_object 1385;
+   `rec` is convert_from_object *)
+Definition fill_field (rec : ltype -> Z -> pyval -> mem -> res mem) (off : Z)
+           (f : lfield) (x : pyval) (m : mem) : res mem :=
+  let ft := lf_type f in
+  let go (m : mem) :=
+    if 0 <=? lf_shift f then
+      match ft with
+      | LPrim k s =>
+          if 64 <=? lf_bits f then rec ft (off + lf_off f) x m
+          else
+            bind (conv_bitfield k s (lf_shift f) (lf_bits f) x (read (off + lf_off f) s m))
+                 (fun bs => write (off + lf_off f) bs m)
+      | _ => Err TypeError
+      end
+    else rec ft (off + lf_off f) x m in
+  if is_flex ft then
+    bind (get_new_array_length x) (fun lb => if snd lb then Ok m else go m)
+  else go m.
+
 (* filling pass: convert_from_object(data + off, t, init) *)
 Fixpoint fill (fuel : nat) (t : ltype) (off : Z) (v : pyval) (m : mem) : res mem :=
   match fuel with
@@ -240,56 +292,13 @@ Fixpoint fill (fuel : nat) (t : ltype) (off : Z) (v : pyval) (m : mem) : res mem
   | S fuel' =>
     match t with
     | LPrim k s => bind (conv_prim k s v) (fun bs => write off bs m)
-    | LArr item len =>
-        (* convert_array_from_object 1480 *)
-        let isz := lsize item in
-        match v with
-        | VList l =>
-            if (0 <=? len) && (len <? mlen l) then Err IndexError
-            else fill_items (fill fuel' item) off isz l m
-        | VBytes b =>
-            if one_byte_item item then
-              if (0 <=? len) && (len <? mlen b) then Err IndexError
-              else
-                let src := if mlen b =? len then b else b ++ [0] in
-                if is_bool_item item && existsb (fun c => 1 <? c) src then Err ValueError
-                else write off src m
-            else Err TypeError
-        | VStr c =>
-            if wide_char_item item then
-              if (0 <=? len) && (len <? mlen c) then Err IndexError
-              else
-                let src := if mlen c =? len then c else c ++ [0] in
-                write off (flat_map (le_bytes isz) src) m
-            else Err TypeError
-        | VCData true data alen => write off (firstn (Z.to_nat (alen * isz)) data) m
-        | _ => Err TypeError
-        end
+    | LArr item len => fill_array (fill fuel' item) item len off v m
     | LAgg size var fs =>
         match v with
         | VCData true data _ =>
             if 0 <=? size then write off (firstn (Z.to_nat size) data) m
             else Err TypeError
-        | _ =>
-            struct_from_object
-              (fun f x m =>                               (* convert_vfield_from_object, optvarsize == NULL *)
-                 let ft := lf_type f in
-                 let go (m : mem) :=                      (* convert_field_from_object 1385 *)
-                   if 0 <=? lf_shift f then
-                     match ft with
-                     | LPrim k s =>
-                         if 64 <=? lf_bits f then fill fuel' ft (off + lf_off f) x m
-                         else
-                           bind (conv_bitfield k s (lf_shift f) (lf_bits f) x (read (off + lf_off f) s m))
-                                (fun bs => write (off + lf_off f) bs m)
-                     | _ => Err TypeError
-                     end
-                   else fill fuel' ft (off + lf_off f) x m in
-                 if is_flex ft then
-                   bind (get_new_array_length x) (fun lb =>
-                   if snd lb then Ok m else go m)
-                 else go m)
-              fs v m
+        | _ => struct_from_object (fill_field (fill fuel') off) fs v m
         end
     end
   end.
